@@ -387,7 +387,11 @@ def stepWith (adj nar : Dir → Dir → Dir) (s : Pc) : Op → Pc × Res
     | none => (s, .err)
     | some _ => ({ s with trs := modifyAt Tr.stop s.trs i }, .ok)
   | .remoteOffer secs =>
-    if s.sig = .stable then
+    -- a description without any m-section carries no ICE credentials: `extractICEDetails` rejects it
+    -- before `setDescription` (since `fix: SetRemoteDescription validates the description before
+    -- applying it`), so nothing changes
+    if secs.isEmpty then (s, .err)
+    else if s.sig = .stable then
       ({ s with sig := .haveRemoteOffer, pendRemote := some secs,
                 trs := (srdLoop adj (Work.ofList s.trs) secs).toList }, .ok)
     else (s, .err)
@@ -422,13 +426,11 @@ def stepWith (adj nar : Dir → Dir → Dir) (s : Pc) : Op → Pc × Res
       | some secs => ({ s1 with sig := .haveLocalOffer }, .desc secs)
     else (s, .err)
   | .remoteAnswer secs =>
-    if s.sig = .haveLocalOffer then
-      -- an answer without any m-section carries no ICE credentials: `extractICEDetails` fails after
-      -- `setDescription` has already committed the state (and before the current directions are set,
-      -- of which there are none)
+    -- an answer without any m-section carries no ICE credentials: rejected before `setDescription`
+    if secs.isEmpty then (s, .err)
+    else if s.sig = .haveLocalOffer then
       ({ s with sig := .stable, curRemote := some secs,
-                trs := (curDirLoop true (Work.ofList s.trs) secs).toList },
-       if secs.isEmpty then .err else .ok)
+                trs := (curDirLoop true (Work.ofList s.trs) secs).toList }, .ok)
     else (s, .err)
   | .setSender i =>
     match s.trs[i]? with
